@@ -128,8 +128,8 @@ class DirectedWeightedGraph : private LabeledDirectedGraph<EdgeWeight> {
     void addReciprocalEdge(
         VertexIndex source, VertexIndex destination, bool force = false
     ) {
-        addEdge(source, destination, force);
-        addEdge(destination, source, force);
+        addEdge(source, destination, EdgeWeight(), force);
+        addEdge(destination, source, EdgeWeight(), force);
     }
 
     /// @copydoc LabeledDirectedGraph::removeEdge
